@@ -72,10 +72,11 @@ class Trace:
         self.ev: List[Dict[str, Any]] = []
         self.lock = threading.Lock()
         self.loop: Any = None
+        self.now: Any = None  # optional callable (real-time runs)
 
     def add(self, kind: str, mid: Any = None, **data: Any) -> None:
         with self.lock:
-            t = self.loop._v_now if self.loop is not None else -1.0
+            t = self.now() if self.now is not None else (self.loop._v_now if self.loop is not None else -1.0)
             e = {"i": len(self.ev), "t": t, "k": kind, "m": mid}
             if data:
                 e.update(data)
@@ -543,8 +544,11 @@ class RunResult:
         self.receiver: Any = None
 
 
-def run_worker(spec: Dict[str, Any]) -> RunResult:
-    """Interpret a worker scenario spec against the real Receiver.listen()."""
+def run_worker(spec: Dict[str, Any], real: bool = False) -> RunResult:
+    """Interpret a worker scenario spec against the real Receiver.listen().
+
+    real=True runs the same spec on the stock asyncio event loop in real time (fidelity cross-check
+    of the virtual-time loop; only for short, tie-free scenarios)."""
     sc = Scenario(spec)
     rr = RunResult()
     rr.sc = sc
@@ -552,7 +556,11 @@ def run_worker(spec: Dict[str, Any]) -> RunResult:
     executor = ThreadPoolExecutor(max_workers=cfg.get("threads", 4))
 
     async def main(loop: Any) -> None:
-        sc.trace.loop = loop
+        T0 = loop.time()
+        if real:
+            sc.trace.now = lambda: loop.time() - T0
+        else:
+            sc.trace.loop = loop
         broker = ScriptedBroker(sc)
         broker.result_backend = RecordingBackend(sc)
         tasks = dict(DEFAULT_TASKS)
@@ -594,7 +602,7 @@ def run_worker(spec: Dict[str, Any]) -> RunResult:
             if info["at"] <= 0:
                 broker._arrive(info)
             else:
-                loop.call_at(info["at"], broker._arrive, info)
+                loop.call_at(T0 + info["at"], broker._arrive, info)
         sends = spec.get("client_sends", [])
         if sends:
             async def _send(s: Dict[str, Any]) -> None:
@@ -636,7 +644,7 @@ def run_worker(spec: Dict[str, Any]) -> RunResult:
             if spec["stop_at"] <= 0:
                 _stop()
             else:
-                loop.call_at(spec["stop_at"], _stop)
+                loop.call_at(T0 + spec["stop_at"], _stop)
         listen_task = asyncio.ensure_future(receiver.listen(finish))
         horizon = spec.get("horizon", 120.0)
         done, _ = await asyncio.wait({listen_task}, timeout=horizon)
@@ -650,7 +658,7 @@ def run_worker(spec: Dict[str, Any]) -> RunResult:
                 rr.err = repr(exc)
             else:
                 rr.outcome = "returned"
-            rr.R = loop.time()
+            rr.R = loop.time() - T0
             sc.trace.add("listen_" + rr.outcome, err=rr.err)
             # let leftovers (un-awaited callback tasks after W) run a little: not needed
         else:
@@ -663,7 +671,20 @@ def run_worker(spec: Dict[str, Any]) -> RunResult:
                 pass
 
     try:
-        run_virtual(main, step_budget=spec.get("steps", 400_000))
+        if real:
+            loop = asyncio.new_event_loop()
+            try:
+                loop.run_until_complete(main(loop))
+            finally:
+                try:
+                    for t in asyncio.all_tasks(loop):
+                        t.cancel()
+                    loop.run_until_complete(asyncio.sleep(0))
+                except BaseException:  # noqa: BLE001
+                    pass
+                loop.close()
+        else:
+            run_virtual(main, step_budget=spec.get("steps", 400_000))
     except VirtualDeadlock as exc:
         rr.outcome = "deadlock"
         rr.err = str(exc)
